@@ -15,3 +15,11 @@ claim("C03", "DESIGN.md §2 C03",
       "justified insufficient-funds, no reservation left after failure). Random search over a very large domain: exploration level.",
       "Insufficient-funds is only judged outside a stated don't-care band around the threshold; spendable pre-chosen inputs are assumed "
       "reserved by the caller (as Account.fund does); 250-input/output transactions only in the thorough tier.")
+claim("C14", "DESIGN.md §2 C14",
+      "property-based testing with a harness-owned scheduler: Hypothesis choice sequences order every database call of 2..12 concurrent real builds",
+      "2..12 Transaction.create / Account.fund coroutines run concurrently on the real ledger/database while a gate around "
+      "AIOSQLite.run lets a generated choice sequence decide which pending database call proceeds next (before the call and before "
+      "its result is delivered); the history oracle checks pairwise-disjoint inputs of simultaneously held builds, unavailability of "
+      "held outputs to later builds, and full availability after every build is released or failed. Schedules are sampled, not "
+      "enumerated: exploration level.",
+      "Only interleavings induced by database-call completion order within one process/event loop; broadcast is a stub.")
